@@ -111,7 +111,7 @@ let () =
            let t = ni () in let k = ni () in
            let h = List.init t (fun _ -> let x = nf () in let g = nf () in { xi_x = x; xi_rnd = g }) in
            let m = extlag_machine fops (restraint_machine fops)
-               (fun (o : float rout) -> List.fold_left ( +. ) 0.0 o.o_forces) in
+               (fun (o : float rout) -> List.fold_left ( +. ) 0.0 o.o_forces) bin_value in
            protocol m (xc, rc) rc.c_it0 h k
              (fun ((xr, fa), o) -> Printf.sprintf "XR=%s FA=%s %s" (hex xr) (hex fa) (pr_rout o))
              (fun (((x, xr), vr), v) -> Printf.sprintf "x=%s extended_x=%s extended_v=%s %s" (hex x) (hex xr) (hex vr) (pr_rsaved v))
@@ -153,6 +153,48 @@ let () =
            let st r = let s = snd (fst r) in (s.s_cnt, s.s_sum) in
            Printf.printf "A %s %s | B %s %s | S step=%d %s\n"
              (steps (snd a)) (grids (st a)) (steps (snd b)) (grids (st b)) (int_of_z (fst f)) (grids (snd f))
+         | "HISTR" ->
+           let kk = nf () in let pi = nf () in let sigma = nf () in let lower = nf () in let width = nf () in
+           let nr = ni () in let refp = nflist nr in
+           let it0 = nz () in let t = ni () in let k = ni () in let m_ = ni () in
+           let h = List.init t (fun _ -> nflist m_) in
+           let c = { hr_k = kk; hr_pi = pi; hr_sigma = sigma; hr_lower = lower; hr_width = width; hr_ref = refp } in
+           protocol (histrestraint_machine fops) c it0 h k
+             (fun (e, f) -> Printf.sprintf "E=%s F=%s" (hex e) (hexl f))
+             (fun () -> "none")
+         | "EABF" ->
+           let dt = nf () in let mass = nf () in let kx = nf () in
+           let lang = nb () in let gf = nf () in let sigma = nf () in
+           let lower = nf () in let width = nf () in let nx = nz () in
+           let full = nz () in let mn = nz () in
+           let it0 = nz () in let t = ni () in let k = ni () in
+           let h = List.init t (fun _ -> let x = nf () in let g = nf () in { xi_x = x; xi_rnd = g }) in
+           let xc = { x_dt = dt; x_mass = mass; x_k = kx; x_langevin = lang; x_gamma_factor = gf; x_sigma = sigma;
+                      x_refl_lo = false; x_lo = 0.0; x_refl_up = false; x_up = 0.0 } in
+           let ac = { c_nd = S O; c_lower0 = [lower]; c_width = [width]; c_nx = [nx]; c_periodic = [false];
+                      c_full = full; c_min = mn; c_update = true; c_cap = false; c_maxf = [0.0];
+                      c_szd = false; c_same_step = false; c_subtract = [false]; c_hidej = false; c_other = [false];
+                      c_scaled = false; c_sfac = (fun _ -> 1.0) } in
+           let m = eabf_machine fops in
+           let queries = List.init (int_of_z nx) (fun i -> [z_of_int i]) in
+           let grids (cnt, sum) =
+             let cs = List.map (fun q -> string_of_int (int_of_z (cnt q))) queries in
+             let gs = List.concat (List.map (fun q ->
+                 let n = int_of_z (cnt q) in
+                 List.map (fun v -> if n > 0 then hex (v /. float_of_int n) else hex 0.0) (sum q)) queries) in
+             Printf.sprintf "CNT=%s GRAD=%s" (String.concat "," cs) (String.concat "," gs) in
+           let h1 = take (k + 1) h and h2 = drop (k + 1) h and hb = drop k h in
+           let pp = run m (xc, ac) it0 h1 in
+           let f = state_file m (xc, ac) (fst pp) in
+           let a = go_on m (xc, ac) (fst pp) h2 in
+           let b = resume m (xc, ac) f hb in
+           let steps l = String.concat " ; " (List.map (fun (it, ((xr, fa), _)) ->
+               Printf.sprintf "it=%d XR=%s FA=%s" (int_of_z it) (hex xr) (hex fa)) l) in
+           let st r = let s = snd (snd (fst r)) in (s.s_cnt, s.s_sum) in
+           let (((x, xr), vr), sv) = snd f in
+           Printf.printf "A %s %s | B %s %s | S step=%d x=%s extended_x=%s extended_v=%s %s\n"
+             (steps (snd a)) (grids (st a)) (steps (snd b)) (grids (st b)) (int_of_z (fst f))
+             (hex x) (hex xr) (hex vr) (grids sv)
          | "META" ->
            let nd = ni () in
            let vg = List.init nd (fun _ ->
